@@ -13,7 +13,7 @@ import z3
 from .sym import (Ctx, SymArray, SymBool, SymInt, SymReal, _lift, _nanz,
                   const, is_sym)
 
-STUBS = ['np.isfinite', 'np.isnan', 'np.asarray', 'np.asanyarray', 'np.array',
+STUBS = ['np.isfinite', 'np.isnan', 'np.isinf', 'np.asarray', 'np.asanyarray', 'np.array',
          'np.nansum', 'np.nanmin', 'np.nanmax', 'np.nanmean', 'np.nanmedian',
          'np.nanstd', 'np.nanvar', 'np.sqrt', 'np.floor', 'np.ceil',
          'np.hypot', 'np.ascontiguousarray', 'np.isscalar',
@@ -50,12 +50,38 @@ def isnan(x, *a, **k):
     return _orig['isnan'](x, *a, **k)
 
 
+def _elem_isfinite(e):
+    if isinstance(e, SymReal):
+        if e.inf is None:
+            return not _elem_isnan(e)
+        return bool(e.isfinite())
+    if isinstance(e, (float, np.floating)):
+        return math.isfinite(e)
+    return True
+
+
 def isfinite(x, *a, **k):
     if _symarr(x):
-        return ~isnan(x)
+        out = np.zeros(x.shape, bool)
+        for idx in np.ndindex(*x.shape):
+            out[idx] = _elem_isfinite(x[idx])
+        return out
     if isinstance(x, SymReal):
-        return not _elem_isnan(x)
+        return _elem_isfinite(x)
     return _orig['isfinite'](x, *a, **k)
+
+
+def isinf(x, *a, **k):
+    if _symarr(x):
+        out = np.zeros(x.shape, bool)
+        for idx in np.ndindex(*x.shape):
+            e = x[idx]
+            out[idx] = bool(e.isinf()) if isinstance(e, SymReal) else (
+                isinstance(e, float) and math.isinf(e))
+        return out
+    if isinstance(x, SymReal):
+        return bool(x.isinf())
+    return _orig['isinf'](x, *a, **k)
 
 
 def isscalar(x):
@@ -236,9 +262,25 @@ def hypot(a, b, *r, **k):
     return _orig['hypot'](a, b, *r, **k)
 
 
-_NAMES = ['isfinite', 'isnan', 'asarray', 'asanyarray', 'array', 'nansum',
+_NAMES = ['isfinite', 'isnan', 'isinf', 'asarray', 'asanyarray', 'array', 'nansum',
           'nanmin', 'nanmax', 'nanmean', 'nanmedian', 'nanstd', 'nanvar',
           'sqrt', 'floor', 'ceil', 'hypot', 'ascontiguousarray', 'isscalar']
+
+
+class _UfuncProxy:
+    """Callable that behaves like the facade function but forwards every
+    other attribute (nin, nout, reduce, ...) to the original ufunc."""
+
+    def __init__(self, f, orig):
+        self._f = f
+        self._orig = orig
+        self.__name__ = getattr(orig, '__name__', 'ufunc')
+
+    def __call__(self, *a, **k):
+        return self._f(*a, **k)
+
+    def __getattr__(self, k):
+        return getattr(self._orig, k)
 
 
 def install():
@@ -246,11 +288,25 @@ def install():
     if _installed:
         return
     _installed = True
+    # import ufunc-introspecting packages before rebinding
+    for m in ('astropy.modeling', 'astropy.modeling.models', 'astropy.units',
+              'astropy.table', 'astropy.nddata', 'astropy.stats', 'scipy.ndimage',
+              'photutils.aperture', 'photutils.segmentation',
+              'photutils.background', 'photutils.centroids',
+              'photutils.detection', 'photutils.profiles', 'photutils.psf',
+              'photutils.datasets', 'photutils.isophote', 'photutils.utils'):
+        try:
+            __import__(m)
+        except Exception:  # noqa
+            pass
     g = globals()
     for k in _NAMES:
         _orig[k] = getattr(np, k)
     for k in _NAMES:
-        setattr(np, k, g[k])
+        f = g[k]
+        if isinstance(_orig[k], np.ufunc):
+            f = _UfuncProxy(f, _orig[k])
+        setattr(np, k, f)
     import photutils.utils._stats as st
     repl = {k: g[k] for k in ['nansum', 'nanmin', 'nanmax', 'nanmean',
                               'nanmedian', 'nanstd', 'nanvar']}
